@@ -26,3 +26,22 @@ for name, (pid, change, needs) in sorted(desc.items()):
     rows.append((name, pid, caught, r))
 for name, pid, caught, r in rows:
     print(name, "DETECTED" if caught else ("missed" if r else "not run"), r)
+
+# update the table in DESIGN.md
+dp = os.path.join(ROOT, "DESIGN.md")
+txt = open(dp).read()
+b, e = "<!-- SEED-TABLE-BEGIN -->", "<!-- SEED-TABLE-END -->"
+if b in txt and e in txt:
+    lines = ["| seeded defect | property | change | needs to manifest | quick check |", "|---|---|---|---|---|"]
+    det = 0
+    for name, pid, caught, r in rows:
+        d = desc[name]
+        status = "not run"
+        if r:
+            status = "DETECTED (%s)" % ", ".join("%s: %d violations" % (k.split(":")[0], v["violations"]) for k, v in r.items() if v["violations"]) if caught else "missed by the quick tier"
+        det += 1 if caught else 0
+        lines.append("| %s | %s | %s | %s | %s |" % (name, pid, d[1].replace("|", "\\|"), d[2].replace("|", "\\|"), status))
+    lines.append("")
+    lines.append("Detected by the registered quick check of the property it breaks: **%d of %d**." % (det, len(rows)))
+    txt = txt[:txt.index(b) + len(b)] + "\n" + "\n".join(lines) + "\n" + txt[txt.index(e):]
+    open(dp, "w").write(txt)
